@@ -116,7 +116,7 @@ CHECKS["C16"] = {
 
 CHECKS["C11"] = {
     "level": "fault_enumeration",
-    "technique": "fault injection by generated abort/stall points (rapid under testing/synctest fake time): client closes or goes silent after a drawn byte offset of an h2 / http/1.1 / no-ALPN session, garbage / plain-HTTP / silent clients, idle waits after served requests, for drawn handshake and idle timeouts, sequential and parallel; oracles: Close() on the accepted conn, goroutine census of the bubble after teardown, exact fake-time deadlines; plus the same through the CLI flags (overlay test in package fingerproxy); idle HTTP/2 clients that keep sending control frames but no request; connections taken over by the handler (Upgrade / 101 through the reverse proxy): tunnels closed by client, backend or abort next to other tunnels, then a goroutine census",
+    "technique": "fault injection by generated abort/stall points (rapid under testing/synctest fake time): client closes or goes silent after a drawn byte offset of an h2 / http/1.1 / no-ALPN session, garbage / plain-HTTP / silent clients, idle waits after served requests, for drawn handshake and idle timeouts, sequential and parallel; oracles: Close() on the accepted conn, goroutine census of the bubble after teardown, exact fake-time deadlines; plus the same through the CLI flags (overlay test in package fingerproxy); idle HTTP/2 clients that keep sending control frames but no request; connections taken over by the handler (Upgrade / 101 through the reverse proxy): tunnels closed by client, backend or abort next to other tunnels, then a goroutine census; a client that sends its hello and never reads, behind a connection that buffers only a few octets of the server's handshake flight",
     "rule": "case = timeouts x 1..6 connections each with a mode (abort at offset, stall at offset, idle after requests, normal close, garbage/plain-http/silent). Non-trivial = an abort or stall strictly inside the session, or an idle wait; distinct by hash of the script.",
     "level_text": "Generated fault points rather than a complete enumeration in the quick tier (offsets 0..2600 drawn uniformly, ~1200 scenarios); the thorough tier enumerates every byte offset of the three reference sessions. Every wait is in fake time, so 'eventually' clauses are decided at quiescence.",
     "level_note": _E2E_NOTE + " net.Pipe connections: OS-level descriptors are not involved.",
